@@ -1,5 +1,6 @@
 """Developer tool: minimise the failing run with the given index and print it."""
 import sys, os, json
+os.environ.setdefault("KRROOD_VERIF", "1")
 sys.path.insert(0, os.environ.get("KRROOD_SRC", "/repo/src")); sys.path.insert(0, "/verif")
 import importlib
 from sim import procs, kernel, minimise
